@@ -167,6 +167,35 @@ CLAIMED["C03"] = (
     "DESIGN.md section 2, C03",
 )
 
+CLAIMED["C11"] = (
+    "def-use (provenance) analysis of the bond index and block keys in qr/svd/eigh/solve; convention and truncation checks shared with C03/C13",
+    "Static: in qr and svd one bond index flows to the left factor and its conjugate to the right factor, with direction, charge "
+    "table key and size from the column charge / left block column count, (c,c) sectors and the identity charge on the right "
+    "factor; eigh requires the identity charge; solve pairs blocks by row charge and gives the solution the conjugate column index "
+    "and charge b - a; the fermionic wrappers follow the single pair-sign convention; the truncated variant re-indexes both "
+    "factors together." + PARTIAL_NOTE,
+    "Orthonormality, triangularity, ordering of singular values and reconstruction are numerical and not decided.",
+    "DESIGN.md section 2, C11",
+)
+CLAIMED["C01"] = (
+    "table of co-update obligations located by shape (dataflow / structural), several shared with C04, C09, C11, C13",
+    "Static: ten pieces of bookkeeping that must change together are shown to change together at every site: index conjugation "
+    "with charge negation and label conjugation; recursive sub-index conjugation; charge-table and extents filtering; contraction "
+    "result charge; expand_dims / squeeze axis-charge-index consistency and guards; sign-table re-keying; joint truncation of "
+    "factors; shrinking of charge tables wherever sectors are filtered; labels stored on every path; bond index bookkeeping." + PARTIAL_NOTE,
+    "Value-level validity (block shapes vs tables, extents partition a fused index, label parity) stays with the library's run-time check().",
+    "DESIGN.md section 2, C01",
+)
+CLAIMED["C02"] = (
+    "operand-role typing by provenance; exhaustiveness and sibling agreement checks; constant checks of literal axes tables",
+    "Static: in the contraction code every container/index pairing has one operand role (A with A, B with B), the result sector and "
+    "indices are A-left then B-right, the mode switch is exhaustive, the abelian and fermionic entry points normalise axes "
+    "identically, the scalar-result protocol agrees at all sites, and the literal axes tables partition each operand's axes, "
+    "contract last-with-first and cover all key combinations (two matmul rows are selected by no test)." + PARTIAL_NOTE,
+    "The contracted numbers are not decided.",
+    "DESIGN.md section 2, C02",
+)
+
 PENDING = "check not built yet (construction in progress; see DESIGN.md section 2 for the planned static rule)"
 NOT_APPLICABLE = {
     "C07": "reshape content preservation and the axis-matching routine are arithmetic over runtime shapes; no clause is a "
